@@ -108,10 +108,11 @@ void vp_raw_free(void *p) {
 }
 
 /* ---------------- port API ---------------- */
-uint64_t vp_clock_jump = 0;        /* one-shot: the clock moves on by this much right after the next reading (a clock that runs WHILE the core works) */
+uint64_t vp_clock_jump = 0;        /* one-shot: the clock moves on by this much right after the k-th reading from now (a clock that runs WHILE the core works) */
+unsigned vp_clock_jump_after = 1;
 static uint64_t read_clock(void) {
     uint64_t v = vp_clock_ms;
-    if (vp_clock_jump) { vp_clock_ms += vp_clock_jump; vp_clock_jump = 0; }
+    if (vp_clock_jump && --vp_clock_jump_after == 0) { vp_clock_ms += vp_clock_jump; vp_clock_jump = 0; vp_clock_jump_after = 1; }
     return v;
 }
 uint64_t lltd_port_monotonic_milliseconds(void) { return read_clock(); }
